@@ -14,7 +14,9 @@ use serde::{Deserialize, Serialize};
 pub struct C12;
 
 #[derive(Clone, Copy, Debug, PartialEq, Eq, Hash, Serialize, Deserialize)]
-pub enum Form { Define, AnnotRef, TypedLit }
+pub enum Form { Define, AnnotRef, TypedLit,
+  /// `y<K?> := x` (scalars only): the option annotation converts through its own route (Value::convert_to)
+  DefineOption }
 
 #[derive(Clone, Debug, Serialize, Deserialize)]
 pub enum Case {
@@ -121,7 +123,7 @@ fn value_for(k1: K) -> BoxedStrategy<Sc> {
 
 fn small_value_for(k1: K) -> BoxedStrategy<Sc> { prop_oneof![3 => sc_strategy(k1, Pool::Small), 1 => sc_strategy(k1, Pool::Boundary)].boxed() }
 
-fn form_strategy() -> BoxedStrategy<Form> { prop_oneof![3 => Just(Form::Define), 2 => Just(Form::AnnotRef), 1 => Just(Form::TypedLit)].boxed() }
+fn form_strategy() -> BoxedStrategy<Form> { prop_oneof![3 => Just(Form::Define), 2 => Just(Form::AnnotRef), 1 => Just(Form::TypedLit), 2 => Just(Form::DefineOption)].boxed() }
 
 fn reshapes(n: usize) -> Vec<(usize, usize)> { (1..=n).filter(|r| n % r == 0).map(|r| (r, n / r)).collect() }
 
@@ -144,12 +146,12 @@ impl Prop for C12 {
               Some(bad[ri.index(bad.len())])
             }
           };
-          Case::Matrix { m: Opnd { scalar: false, rows: r, cols: c, data }, k2, reshape, form: if reshape.is_some() && form == Form::TypedLit { Form::Define } else { form } }
+          Case::Matrix { m: Opnd { scalar: false, rows: r, cols: c, data }, k2, reshape, form: if form == Form::DefineOption || (reshape.is_some() && form == Form::TypedLit) { Form::Define } else { form } }
         })
       }).boxed();
     let fill = (pick(kinds.clone()), pick(kinds.clone()), 1usize..=4, 1usize..=4).prop_flat_map(|(k1, k2, rows, cols)| small_value_for(k1).prop_map(move |v| Case::Fill { v, k2, rows, cols })).boxed();
     let toset = (pick(kinds.clone()), pick(kinds.clone()), prop_oneof![(1usize..=1, 2usize..=6), (2usize..=6, 1usize..=1), (2usize..=3, 2usize..=3)])
-      .prop_flat_map(|(k1, k2, (r, c))| proptest::collection::vec(sc_strategy(k1, Pool::Small), r * c).prop_map(move |data| Case::ToSet { m: Opnd { scalar: false, rows: r, cols: c, data }, k2 })).boxed();
+      .prop_flat_map(|(k1, k2, (r, c))| proptest::collection::vec(prop_oneof![2 => sc_strategy(k1, Pool::Small), 1 => sc_strategy(k1, Pool::Mixed)], r * c).prop_map(move |data| Case::ToSet { m: Opnd { scalar: false, rows: r, cols: c, data }, k2 })).boxed();
     let noconv = prop_oneof![
       (str_strategy(), pick(kinds.clone())).prop_map(|(v, k)| Case::NoConv { v, target: k.name().to_string() }),
       (prop_oneof![Just("7"), Just("1.5"), Just("abc")], pick(kinds.clone())).prop_map(|(s, k)| Case::NoConv { v: Sc::Str(s.to_string()), target: k.name().to_string() }),
@@ -162,7 +164,7 @@ impl Prop for C12 {
     // every ordered kind pair once as scalar (value 7, representable everywhere), and every (r,c)->(r',c') reshape up to 16 elements
     let mut out = vec![];
     let seven = |k: K| -> Sc { match k { _ if k.is_int() => k.int_sc(&BigInt::from(7)), K::F32 => f32b(7.0), K::F64 => f64b(7.0), K::R64 => Sc::R(7, 1), _ => Sc::C(7f64.to_bits(), 0f64.to_bits()) } };
-    for k1 in ALL_KINDS { for k2 in ALL_KINDS { for form in [Form::Define, Form::AnnotRef] { out.push(Case::Scalar { v: seven(k1), k2, form }); } } }
+    for k1 in ALL_KINDS { for k2 in ALL_KINDS { for form in [Form::Define, Form::AnnotRef, Form::DefineOption] { out.push(Case::Scalar { v: seven(k1), k2, form }); } } }
     for n in 1..=16usize {
       for (r, c) in reshapes(n) {
         for (r2, c2) in reshapes(n) {
@@ -176,7 +178,7 @@ impl Prop for C12 {
   fn exhaustive_note(_t: Tier) -> Option<String> { Some("exhaustive over: all 14x14 ordered kind pairs (scalar 7, define and annotated-reference forms) and all (r,c)->(r',c') reshapes of equal element count up to 16 elements; values and the remaining forms are sampled".into()) }
   fn rule() -> &'static str {
     "case ∈ {scalar K1→K2, matrix K1→K2 (row/column/general, optional reshape annotation with equal or unequal element count), \
-     scalar-to-matrix fill, matrix-to-set, no-conversion pairs}; forms: annotated define, annotated reference, typed literal; values from \
+     scalar-to-matrix fill, matrix-to-set, no-conversion pairs}; forms: annotated define, annotated reference, typed literal, option-annotated define (scalars); values from \
      boundary/mixed pools. Oracle: exact rational model of each value. Non-trivial = K1≠K2 or a reshape/set/fill; distinct key = \
      (case class, K1, K2, carrier, value class, outcome)."
   }
@@ -194,6 +196,7 @@ impl Prop for C12 {
 fn conv_stmt(form: Form, src_name: &str, src_lit: Option<String>, target_annot: &str) -> String {
   match form {
     Form::Define => format!("y<{}> := {}", target_annot, src_name),
+    Form::DefineOption => format!("y<{}?> := {}", target_annot, src_name),
     Form::AnnotRef => format!("y := {}<{}>", src_name, target_annot),
     Form::TypedLit => match src_lit { Some(l) => format!("y := {}<{}>", l, target_annot), None => format!("y<{}> := {}", target_annot, src_name) },
   }
